@@ -14,6 +14,10 @@ fn usage() -> ! {
 
 fn main() {
     let args: Vec<String> = std::env::args().collect();
+    if args.get(1).map(|s| s.as_str()) == Some("c20hist") {
+        checks::c20::worker(args.get(2).map(|s| s.as_str()).unwrap_or(""));
+        return;
+    }
     if args.get(1).map(|s| s.as_str()) == Some("r7dump") {
         checks::c15::r7dump(args.get(2).map(|s| s.as_str()).unwrap_or("/dev/stdout"));
         return;
